@@ -55,6 +55,18 @@ def bank_cfg(rng, kind=None, max_filts=40, gammatone_scope_c07=False):
         cfg["max_centered"] = bool(rng.integers(2))
         cfg["scale_l2_norm"] = False if gammatone_scope_c07 else bool(rng.random() < 0.4)
         cfg["erb"] = bool(rng.integers(2))
+    if rng.random() < 0.25:
+        # the same numbers handed over as other numeric types (applied by gen.build_bank; the dict itself stays JSON-able)
+        if rng.random() < 0.6:
+            cfg["low_hz"] = float(round(cfg["low_hz"]))
+            if cfg["high_hz"] is not None:
+                cfg["high_hz"] = float(max(round(cfg["high_hz"]), cfg["low_hz"] + rate // 16))
+                cfg["high_hz"] = float(min(cfg["high_hz"], rate // 2))
+        kinds = {"num_filts": str(rng.choice(["np.int64", "np.int32"])), "sampling_rate": str(rng.choice(["float", "np.int64", "np.float64"]))}
+        for k in ("low_hz", "high_hz"):
+            if cfg[k] is not None:
+                kinds[k] = str(rng.choice(["int", "np.int64", "np.int32"])) if float(cfg[k]).is_integer() else "np.float64"
+        cfg["_kinds"] = kinds
     return cfg
 
 
